@@ -258,3 +258,33 @@ fn ecc_block_1() {
     ecc_block(data.iter().cloned(), g, &mut ecc);
     assert_eq!(ecc[..5], vec![255, 207, 37, 244, 81]);
 }
+
+/// Read-only access for the external verification harness (`--cfg datamatrix_verif`).
+#[cfg(datamatrix_verif)]
+pub mod verif_gf {
+    use super::galois::GF;
+
+    pub fn mul(a: u8, b: u8) -> u8 {
+        (GF(a) * GF(b)).into()
+    }
+
+    pub fn div(a: u8, b: u8) -> u8 {
+        (GF(a) / GF(b)).into()
+    }
+
+    pub fn add(a: u8, b: u8) -> u8 {
+        (GF(a) + GF(b)).into()
+    }
+
+    pub fn log(a: u8) -> usize {
+        GF(a).log()
+    }
+
+    pub fn primitive_power(i: u8) -> u8 {
+        GF::primitive_power(i).into()
+    }
+
+    pub fn generator(len: usize) -> &'static [u8] {
+        super::generator(len)
+    }
+}
